@@ -508,4 +508,24 @@ def ringHeap (n : Nat) : Heap :=
 /-- the wrap-around comparator the timers use on 8-bit tick counters: `(int8_t)(a - b) < 0` -/
 def wrapLess8 (a b : BitVec 8) : Bool := (a - b).toInt < 0
 
+/-! ### round 3b: `dlist_is_correct` / `igris::dlist::is_correct()` after the repair (one walk that tests
+`it->next->prev == it`).  `dlistIsCorrect` above is the function as it was (two step counts compared): its
+theorems stay as the record of what the old code did. -/
+
+/-- the loop of the repaired `dlist_is_correct`: `count` iterations left, `it` the current node -/
+def isCorrectWalk (h : Heap) (head : Nat) : Nat → Nat → Bool
+  | 0, _ => false
+  | count + 1, it =>
+    let nx := h.next it
+    if h.prev nx != it then false
+    else if nx == head then true
+    else isCorrectWalk h head count nx
+
+/-- `dlist_is_correct(head)`: `int count = 1000; it = head; while (count--) …; return false` -/
+def dlistIsCorrectStrict (h : Heap) (head : Nat) : Bool := isCorrectWalk h head IS_CORRECT_BOUND head
+
+/-- `igris::dlist::is_correct()`: the same walk as a `do … while (it != &list)` loop without a bound; `fuel`
+is the model's loop bound (any number above the number of nodes of the heap) -/
+def cppIsCorrectStrict (h : Heap) (fuel l : Nat) : Bool := isCorrectWalk h l fuel l
+
 end Igris.C01
